@@ -59,9 +59,12 @@ def work_function(args):
         out['gen_s'] = time.time() - t0
         out['prune'] = eng.stats
         b = _budget(tier)
+        # quick tier: the clauses tagged with the property plus all structural obligations;
+        # thorough tier: EVERY obligation of the listed functions (the property rests on the whole
+        # contract chain), with larger solver budgets
         todo = [o for o in obls if not (
-            prop is not None and o.kind not in STRUCTURAL and o.kind != 'canary' and
-            o.kind != 'kf-repro' and prop not in o.props)]
+            prop is not None and tier != 'thorough' and o.kind not in STRUCTURAL and
+            o.kind != 'canary' and o.kind != 'kf-repro' and prop not in o.props)]
 
         def solve_one(o):
             def on_model(m, eng=eng):
